@@ -35,11 +35,35 @@ STD_AXIOMS = {
 BANNED = re.compile(r"\b(Admitted|admit|Axiom|Axioms|Parameter|Parameters|Conjecture|Conjectures|Hypothesis|Hypotheses|Variable|Variables|Unset\s+Guard|bypass_check|Admit\s+Obligations|type-in-type|impredicative-set|Unset\s+Positivity|Unset\s+Universe)\b")
 
 
+class _Res:
+    def __init__(self, rc, out):
+        self.returncode, self.stdout = rc, out
+
+
 def sh(cmd, **kw):
+    """Run a command; with a timeout the whole process group is killed (harnesses spawn children)
+    and exit code 124 is returned instead of raising."""
+    timeout = kw.pop("timeout", None)
     kw.setdefault("stdout", subprocess.PIPE)
     kw.setdefault("stderr", subprocess.STDOUT)
     kw.setdefault("text", True)
-    return subprocess.run(cmd, **kw)
+    if timeout is None:
+        return subprocess.run(cmd, **kw)
+    import signal
+    p = subprocess.Popen(cmd, start_new_session=True, **kw)
+    try:
+        out, _ = p.communicate(timeout=timeout)
+        return _Res(p.returncode, out)
+    except subprocess.TimeoutExpired:
+        try:
+            os.killpg(p.pid, signal.SIGKILL)
+        except Exception:
+            pass
+        try:
+            out, _ = p.communicate(timeout=30)
+        except Exception:
+            out = ""
+        return _Res(124, (out or "") + "\n[driver] killed after %ss without terminating" % timeout)
 
 
 def env():
@@ -226,9 +250,13 @@ class Run:
             args = ["-replay", self.replay["file"]]
         cmd = [os.path.join(ROOT, "harness", "bin", st["cmd"]), "-seed", str(self.seed), "-out", outdir] + args
         t = time.time()
-        r = sh(cmd, env=env(), cwd=self.work, timeout=st.get("timeout", 7200))
+        tmo = st.get("timeout", {"quick": 1500, "thorough": 7200}.get(self.tier, 7200))
+        r = sh(cmd, env=env(), cwd=self.work, timeout=tmo)
         if r.returncode != 0 or not os.path.exists(os.path.join(outdir, "summary.json")):
-            self.failures.append({"kind": "harness-run", "what": "harness %s crashed (exit %s)" % (st["cmd"], r.returncode),
+            what = "harness %s crashed (exit %s)" % (st["cmd"], r.returncode)
+            if r.returncode == 124:
+                what = "harness %s did not terminate within %ss (the implementation under test hangs or deadlocks on some generated case)" % (st["cmd"], tmo)
+            self.failures.append({"kind": "harness-run", "what": what,
                                   "detail": r.stdout[-4000:], "broken": "correspondence stream %s (harness run)" % name})
             self.say("[K] harness run FAILED\n" + r.stdout[-2500:])
             return None
